@@ -51,12 +51,17 @@ def is_consumer(c):
     n = strip_generics(c.callee)
     if n in CONSUMERS:
         return True
-    return n.startswith("bytes::buf::buf_impl::Buf::get_") or n.startswith("bytes::buf::buf_impl::Buf::copy_to")
+    if n.startswith("bytes::buf::buf_impl::Buf::get_") or n.startswith("bytes::buf::buf_impl::Buf::copy_to"):
+        # a read cursor over a borrowed slice (`let mut peek = &src[..8]; peek.get_u64()`) consumes the cursor, not the buffer
+        st = (c.self_ty or "")
+        return not (st.startswith("&[") or st.startswith("&'") and "[u8]" in st or st == "[u8]")
+    return False
 
 
 def get_type_table(ctx, F):
     b = F.body("selium_protocol::frame::Frame::get_type")
     ctx.touch(b)
+    b = F.inlined(b)            # `self.kind().marker()`-style helpers are looked through
     sws = K.find_variant_switches(b, FRAME)
     if len(sws) != 1:
         ctx.fail("C05.D1.tag-table", "get_type:shape", "Frame::get_type is not a single match over the frame kind", b.span)
@@ -64,12 +69,19 @@ def get_type_table(ctx, F):
     arms, adt, pl, other, allv = K.arm_map(b, sws[0])
     # locals whose value is what the function returns (through plain copies, casts and From/Into conversions)
     retv = {0}
+    enumv = {}          # locals holding a value of a field-less enum whose discriminant (cast to the tag type) is what is returned
     grew = True
     while grew:
         grew = False
         for i, j, p, rv, s in b.assigns():
             if p["l"] in retv and not p["p"] and rv["k"] in ("use", "cast") and rv["op"].get("k") in ("copy", "move") and not rv["op"]["pl"]["p"] and rv["op"]["pl"]["l"] not in retv:
                 retv.add(rv["op"]["pl"]["l"])
+                grew = True
+            if p["l"] in retv and not p["p"] and rv["k"] == "discr" and not rv["pl"]["p"] and rv["pl"]["l"] not in enumv and rv.get("adt") in F.adts:
+                enumv[rv["pl"]["l"]] = rv["adt"]
+                grew = True
+            if p["l"] in enumv and not p["p"] and rv["k"] == "use" and rv["op"].get("k") in ("copy", "move") and not rv["op"]["pl"]["p"] and rv["op"]["pl"]["l"] not in enumv:
+                enumv[rv["op"]["pl"]["l"]] = enumv[p["l"]]
                 grew = True
         for c in b.calls():
             if c.dest is not None and c.dest["l"] in retv and strip_generics(c.callee) in ("core::convert::From::from", "core::convert::Into::into") and c.args and op_local(c.args[0]) is not None \
@@ -84,6 +96,11 @@ def get_type_table(ctx, F):
                 c = flow.const_of(rv["op"])
                 if c is not None:
                     vals.append((c, rv["op"].get("item"), s["span"]))
+            if p["l"] in enumv and not p["p"] and rv["k"] == "agg" and rv.get("adt") == enumv[p["l"]] and not rv.get("ops"):
+                # the tag is the discriminant of a private `#[repr(u8)]` kind enum
+                dv = [v_["discr"] for v_ in F.adt(rv["adt"])["variants"] if v_["name"] == rv["variant"] and not v_.get("fields")]
+                if dv:
+                    vals.append((dv[0], "%s::%s" % (rv["adt"], rv["variant"]), s["span"]))
         if len(vals) == 1:
             table[v] = vals[0]
         else:
@@ -125,8 +142,8 @@ def try_from_table(ctx, F):
             cs = K.calls_in(ib, reg)
             des = [c for c in cs if strip_generics(c.callee).startswith("bincode::") and c.dest is not None]
             fed = flow.derived(ib, {c.dest["l"] for c in des}, calls="all") if des else set()
-            exits = [c for c in cs if strip_generics(c.callee) in ("core::ops::try_trait::Try::branch", "core::ops::try_trait::FromResidual::from_residual")
-                     and not any(op_local(a) in fed for a in c.args)]
+            # (a `?` whose outcome is already decided — threaded to its Continue edge — has no reachable from_residual)
+            exits = [c for c in cs if strip_generics(c.callee) == "core::ops::try_trait::FromResidual::from_residual" and not any(op_local(a) in fed for a in c.args)]
             errs = [s for _, _, pl_, rv, s in K.assigns_in(ib, reg) if rv["k"] == "agg" and rv.get("agg") == "adt" and rv.get("adt") == "core::result::Result" and rv.get("variant") == "Err"
                     and not any(op_local(o) in fed for o in rv.get("ops", []))]
             ctx.check(not exits and not errs, "C05.D1.decode-total", "try_from:extra-refusal:tag%d" % val,
@@ -414,7 +431,15 @@ def d4(ctx, F):
     guards = []
     for i, bl in enumerate(dec.blocks):
         sc = flow.switch_condition(dec, i)
-        if sc and sc.get("kind") == "cmp" and (dec.reachable(sc["true"]) & none_blocks) and not any(c.bb in dec.reachable(sc["true"]) for c in consumers):
+        if not (sc and sc.get("kind") == "cmp"):
+            continue
+        # normalise `have >= need { go on } else { None }` (and the mirrored operand order) to `have < need => None`
+        sc = dict(sc)
+        if sc["op"] in ("Gt", "Le") and flow.const_of(sc["a"]) is not None:
+            sc["a"], sc["b"], sc["op"] = sc["b"], sc["a"], flow._FLIP[sc["op"]]
+        if sc["op"] == "Ge":
+            sc["op"], sc["true"], sc["false"] = "Lt", sc["false"], sc["true"]
+        if (dec.reachable(sc["true"]) & none_blocks) and not any(c.bb in dec.reachable(sc["true"]) for c in consumers):
             guards.append((i, sc))
     have_len_guard = have_payload_guard = False
     lensrc = {c.dest["l"] for c in dec.calls_to("bytes::bytes_mut::BytesMut::len", "bytes::buf::buf_impl::Buf::remaining")}
